@@ -203,6 +203,12 @@ class ArrayAttr(
     def __init__(self, param: Iterable[AttributeCovT]) -> None:
         super().__init__(tuple(param))
 
+    @classmethod
+    def new(cls, params: Iterable[AttributeCovT]) -> Self:
+        # `Data.new` (used by `Data.get` and parameter converters) bypasses `__init__`,
+        # keep the payload an immutable, hashable tuple.
+        return super().new(tuple(params))
+
     def print_builtin(self, printer: Printer):
         with printer.in_square_brackets():
             printer.print_list(self.data, printer.print_attribute)
